@@ -106,6 +106,8 @@ MCNext ==
               ELSE Call(type, called, check, {}, <<>>)
   \/ \E v \in {w \in SUBSET NegCandidates : Cardinality(w) <= MaxVeto} : StepV(v)
   \/ Return
+  \* a handler deadline was hit between two calls: the next call is refused
+  \/ (UseFlags /\ ~FaultMode /\ ncalls = 1 /\ ~backoff /\ SetBackoff(TRUE))
 
 MCSpec == MCInit /\ [][MCNext]_vars
 
@@ -113,7 +115,7 @@ MCSpec == MCInit /\ [][MCNext]_vars
 (* and the few observation fields later formulas read (prev/obs projections); *)
 (* the bulky observation records themselves are hidden from the fingerprint.  *)
 ObsProj(x) == IF x.kind = "tx" THEN <<x.accepted, x.mut, x.tb, x.ta, x.after>> ELSE <<x.kind>>
-MCView == <<sch, topo, hs, active, clock, qtick, queue, running, first, pan, stall, wedged,
+MCView == <<sch, topo, hs, active, clock, qtick, queue, running, first, pan, stall, wedged, backoff,
             atCall, ncalls, verdict, ObsProj(obs), ObsProj(prev),
             IF firstTx = None THEN <<>> ELSE <<firstTx.after, firstTx.target>>>>
 
